@@ -10,8 +10,9 @@ COMPS = {
 }
 
 
-def pipeline(ctx, comp, replay=None, parts=("tlc", "random"), mc=None):
-    """MC + stimuli + execution + trace validation for one component; returns (rejections, heap)."""
+def pipeline(ctx, comp, replay=None, parts=("tlc", "random"), mc=None, env=None):
+    """MC + stimuli + execution + trace validation for one component; returns (rejections, heap).
+    env: extra IOEnv entries for the trace specification (C05 judges the bus with BUS_PROP=C05)."""
     c = COMPS[comp]
     hx = ctx.cargo_build("hx_stream")
     rej, heap = [], []
@@ -35,7 +36,7 @@ def pipeline(ctx, comp, replay=None, parts=("tlc", "random"), mc=None):
         tr = os.path.join(ctx.work, "%s_trace_%s_%s.ndjson" % (comp, name, prof))
         r = ctx.run_stimuli(hxp, sf, tr, comp)
         ctx.count_distinct(tr)
-        res = ctx.validate(c["trace"], tr, comp=comp, max_lines=40000, jobs=8)
+        res = ctx.validate(c["trace"], tr, comp=comp, max_lines=40000, jobs=8, env=env)
         for x in r + res["rejected"] + res["heap"]:
             x["profile"] = prof
         rej += r + res["rejected"]
